@@ -65,19 +65,37 @@ type openRec struct {
 }
 
 type c07Mon struct {
-	mu      sync.Mutex
-	tasks   []c07Task
-	byID    map[string]int
-	open    map[int]string
-	maxOpen int
-	opens   int
-	viols   []map[string]interface{}
-	sameCls int // opens that happened while another task of an exclusive class was open (allowed combos)
+	mu             sync.Mutex
+	tasks          []c07Task
+	byID           map[string]int
+	open           map[int]string
+	maxOpen        int
+	opens          int
+	viols          []map[string]interface{}
+	sameCls        int // opens that happened while another task of an exclusive class was open (allowed combos)
+	tombs          map[int]*tomb.Tomb
+	killedInFlight int
+	failed         int
+	openAtFailure  int
+	besideAborted  int // handler starts that happened while an aborted (killed) handler was still running
 }
 
-func (m *c07Mon) enter(idx int, phase string) {
+func (m *c07Mon) enter(idx int, phase string, tb *tomb.Tomb) {
 	m.mu.Lock()
 	defer m.mu.Unlock()
+	if m.tombs == nil {
+		m.tombs = map[int]*tomb.Tomb{}
+	}
+	for o := range m.open {
+		if ot := m.tombs[o]; ot != nil && !ot.Alive() {
+			m.besideAborted++
+			break
+		}
+	}
+	m.tombs[idx] = tb
+	if os.Getenv("VERIF_DEBUG") != "" && (m.tasks[idx].Snap == "snap-z" || m.tasks[idx].Kind == plainKinds[1]) {
+		fmt.Printf("DEBUG enter %d %s/%s %s at %v\n", idx, m.tasks[idx].Kind, m.tasks[idx].Snap, phase, time.Now().Format("05.000000"))
+	}
 	me := &m.tasks[idx]
 	myClass := classOf(me)
 	for o, oph := range m.open {
@@ -108,6 +126,12 @@ func (m *c07Mon) enter(idx int, phase string) {
 
 func (m *c07Mon) leave(idx int) {
 	m.mu.Lock()
+	if os.Getenv("VERIF_DEBUG") != "" && m.tasks[idx].Snap == "snap-z" {
+		fmt.Printf("DEBUG leave %d %s alive=%v at %v\n", idx, m.tasks[idx].Kind, m.tombs[idx].Alive(), time.Now().Format("05.000000"))
+	}
+	if tb := m.tombs[idx]; tb != nil && !tb.Alive() {
+		m.killedInFlight++
+	}
 	delete(m.open, idx)
 	m.mu.Unlock()
 }
@@ -116,7 +140,7 @@ var curMon *c07Mon // the spies are registered once per overlord and consult the
 var curMu sync.Mutex
 
 func spy(phase string) state.HandlerFunc {
-	return func(t *state.Task, _ *tomb.Tomb) error {
+	return func(t *state.Task, tb *tomb.Tomb) error {
 		curMu.Lock()
 		m := curMon
 		curMu.Unlock()
@@ -124,10 +148,17 @@ func spy(phase string) state.HandlerFunc {
 		if !ok {
 			return nil
 		}
-		m.enter(idx, phase)
+		m.enter(idx, phase, tb)
 		time.Sleep(time.Duration(m.tasks[idx].NapUs) * time.Microsecond)
 		m.leave(idx)
 		if phase == "do" && m.tasks[idx].Fail {
+			m.mu.Lock()
+			m.failed++
+			if os.Getenv("VERIF_DEBUG") != "" && m.tasks[idx].Kind == plainKinds[1] {
+				fmt.Printf("DEBUG fail %d at %v open=%d\n", idx, time.Now().Format("05.000000"), len(m.open))
+			}
+			m.openAtFailure += len(m.open)
+			m.mu.Unlock()
 			return fmt.Errorf("injected failure")
 		}
 		return nil
@@ -162,6 +193,10 @@ func genC07(rnd *rand.Rand) []c07Task {
 	pEdge := []float64{0.02, 0.08, 0.2}[rnd.Intn(3)]
 	for i := 0; i < n; i++ {
 		t := c07Task{Chg: rnd.Intn(nchg), NapUs: rnd.Intn(3000)}
+		if rnd.Intn(5) == 0 {
+			// long bodies keep running (they ignore the kill) well after an abort
+			t.NapUs = 5000 + rnd.Intn(6000)
+		}
 		switch x := rnd.Intn(20); {
 		case x < 6:
 			t.Kind, t.Snap = "run-hook", snaps[rnd.Intn(len(snaps))]
@@ -179,9 +214,34 @@ func genC07(rnd *rand.Rand) []c07Task {
 				t.Waits = append(t.Waits, j)
 			}
 		}
-		t.Fail = rnd.Intn(25) == 0
+		t.Fail = rnd.Intn(8) == 0
 		ts = append(ts, t)
 	}
+	if rnd.Intn(2) == 0 {
+		// abort-heavy shape: in every change a plain task fails quickly while
+		// long-running tasks of the serialized classes are in flight (they
+		// ignore the kill and keep running in Abort status), and other
+		// changes have runnable tasks of the same classes waiting
+		for c := 0; c < nchg; c++ {
+			ts = append(ts, c07Task{Kind: plainKinds[0], Chg: c, Fail: true, NapUs: 1500 + rnd.Intn(2500)})
+		}
+		for i := range ts {
+			if classOf(&ts[i]) != "" && !ts[i].Fail {
+				ts[i].NapUs = 15000 + rnd.Intn(25000)
+				ts[i].Waits = nil
+			}
+		}
+	}
+	// directed trio present in every case: a hook of snap-z keeps running (it
+	// ignores the kill) after a quick failure in its change aborted it, while a
+	// second hook of snap-z in another change is runnable the whole time
+	base := len(ts)
+	ts = append(ts,
+		c07Task{Kind: "run-hook", Snap: "snap-z", Chg: nchg, NapUs: 30000 + rnd.Intn(20000)},
+		c07Task{Kind: plainKinds[1], Chg: nchg, Fail: true, NapUs: 1000 + rnd.Intn(3000)},
+		c07Task{Kind: "run-hook", Snap: "snap-z", Chg: nchg + 1, NapUs: 1000 + rnd.Intn(3000)},
+		c07Task{Kind: "update-gadget-assets", Chg: nchg + 1, Waits: []int{base + 2}, NapUs: 500},
+	)
 	return ts
 }
 
@@ -193,17 +253,18 @@ func TestVerifC07(t *testing.T) {
 	c.Assume("the list of interface-manipulating task kinds is the documented one (hotplug-seq-wait deliberately excluded)")
 	c.Floor("handler_opens", 600)
 	c.Floor("unordered_same_class_pairs", 300)
+	c.Floor("handler_starts_beside_an_aborted_running_handler", 5)
 	defer dirs.SetRootDir("/")
 	restore := ifacestate.MockSecurityBackends(nil)
 	defer restore()
-	n := kit.Scale(40, 400)
+	n := kit.Scale(60, 400)
 	only := kit.OnlyCase()
 	var o *overlord.Overlord
 	for i := 0; i < n; i++ {
 		if only >= 0 && i != only {
 			continue
 		}
-		if o == nil || i%5 == 0 {
+		if true {
 			if o != nil {
 				o.TaskRunner().Stop()
 				os.RemoveAll(dirs.GlobalRootDir)
@@ -262,7 +323,7 @@ func TestVerifC07(t *testing.T) {
 		// drive: racing Ensure passes until every change is ready
 		var wg sync.WaitGroup
 		stop := make(chan struct{})
-		for g := 0; g < 3; g++ {
+		for g := 0; g < 2; g++ {
 			wg.Add(1)
 			go func() {
 				defer wg.Done()
@@ -273,7 +334,7 @@ func TestVerifC07(t *testing.T) {
 					default:
 					}
 					o.TaskRunner().Ensure()
-					time.Sleep(400 * time.Microsecond)
+					time.Sleep(1500 * time.Microsecond)
 				}
 			}()
 		}
@@ -307,6 +368,10 @@ func TestVerifC07(t *testing.T) {
 		mon.mu.Lock()
 		c.Count("handler_opens", mon.opens)
 		c.Count("unordered_same_class_pairs", pairs)
+		c.Count("handler_starts_beside_an_aborted_running_handler", mon.besideAborted)
+		c.Count("handlers_killed_in_flight", mon.killedInFlight)
+		c.Count("failed_handlers", mon.failed)
+		c.Count("handlers_open_when_a_handler_failed", mon.openAtFailure)
 		c.Max("max_handlers_open_at_once", mon.maxOpen)
 		for _, v := range mon.viols {
 			sig := v["sig"].(string)
